@@ -27,6 +27,7 @@ class Variant:
     rule: str | None = None        # witness: rule that must fire
     construct: str | None = None   # witness: substring the reported construct must contain
     seed: dict | None = None       # kind 'seed' / 'seed-obsolete': stored seeded change applied as text
+    multi: object = None           # callable(prog) -> {path: source} | None : a twin that rewrites several files
 
 
 def witness(name, path, edit, rule, construct=None):
@@ -58,6 +59,9 @@ def _apply(prog, v):
         except PatchDoesNotApply:
             return None
         return Program(prog.root, overrides=ov, base=prog)
+    if v.multi is not None:
+        ov = v.multi(prog)
+        return Program(prog.root, overrides=ov, base=prog) if ov else None
     m = _module_by_path(prog, v.path)
     import warnings
     with warnings.catch_warnings():
@@ -315,4 +319,13 @@ def _rename_locals(tree):
 
 
 def auto_rename_twins(paths):
-    return [twin("auto: all locals of %s renamed" % os.path.basename(p), p, _rename_locals) for p in paths]
+    from .autotwins import TRANSFORMS, rename_private_everywhere
+    out = [twin("auto: all locals of %s renamed" % os.path.basename(p), p, _rename_locals) for p in paths]
+    for what, fn in TRANSFORMS:
+        for p in paths:
+            out.append(twin("auto: %s in %s" % (what, os.path.basename(p)), p, fn))
+    for p in paths:
+        v = twin("auto: private members of %s renamed everywhere" % os.path.basename(p), p, None)
+        v.multi = (lambda prog, p=p: rename_private_everywhere(prog, p))
+        out.append(v)
+    return out
